@@ -93,6 +93,13 @@ type serverConn struct {
 	// a handler that outlives the connection has somewhere to give up.
 	handlerStop chan struct{}
 
+	// admitMu orders the opening of streams against the sending of GOAWAY. A
+	// stream is either opened before the GOAWAY is built, and then its
+	// last-stream-id covers it, or it is refused: the read loop and the idle
+	// timer send GOAWAY from their own goroutines while the stream loop may be
+	// about to hand a new request to a handler.
+	admitMu sync.Mutex
+
 	state connState
 	// closeRef stores the last stream that was valid before sending a GOAWAY.
 	// Thus, the number stored in closeRef is used to complete all the requests that were sent before
@@ -800,6 +807,15 @@ loop:
 					continue
 				}
 
+				// A GOAWAY may have gone out from another goroutine since
+				// wasClosing was read. What it told the peer about the last
+				// stream stands, so this one is not served.
+				if fr.Type() == FrameHeaders && !sc.admit(fr.Stream()) {
+					sc.writeReset(fr.Stream(), RefusedStreamError)
+
+					continue
+				}
+
 				strm = NewStream(fr.Stream(), curInitialWindow)
 				strms = append(strms, strm)
 
@@ -811,7 +827,6 @@ loop:
 				// HEADERS frame and streams that are reserved using PUSH_PROMISE.
 				if fr.Type() == FrameHeaders {
 					openStreams++
-					sc.lastID = fr.Stream()
 				}
 
 				sc.createStream(sc.c, fr.Type(), strm)
@@ -991,24 +1006,53 @@ func (sc *serverConn) writeReset(strm uint32, code ErrorCode) {
 	}
 }
 
+// admit records id as the highest stream the peer has opened, unless a GOAWAY
+// has been sent, in which case the stream must not be served.
+func (sc *serverConn) admit(id uint32) bool {
+	sc.admitMu.Lock()
+	defer sc.admitMu.Unlock()
+
+	if atomic.LoadInt32((*int32)(&sc.state)) == int32(connStateClosed) {
+		return false
+	}
+
+	sc.lastID = id
+
+	return true
+}
+
+// writeGoAway sends a GOAWAY and stops new streams from being opened. A non-zero
+// strm means the streams opened so far are allowed to finish before the
+// connection goes.
+//
+// The last-stream-id on the wire is always the highest stream that has been
+// opened, whichever stream the error was found on: it is what tells the peer
+// which requests it may safely send again, and a smaller value invites it to
+// replay requests that have been, or are being, served (RFC 7540 6.8).
 func (sc *serverConn) writeGoAway(strm uint32, code ErrorCode, message string) {
+	sc.admitMu.Lock()
+
+	last := sc.lastID
+
+	if strm != 0 {
+		atomic.StoreUint32(&sc.closeRef, last)
+	}
+
+	atomic.StoreInt32((*int32)(&sc.state), int32(connStateClosed))
+
+	sc.admitMu.Unlock()
+
 	ga := AcquireFrame(FrameGoAway).(*GoAway)
 
 	fr := AcquireFrameHeader()
 
-	ga.SetStream(strm)
+	ga.SetStream(last)
 	ga.SetCode(code)
 	ga.SetData([]byte(message))
 
 	fr.SetBody(ga)
 
 	sc.write(fr)
-
-	if strm != 0 {
-		atomic.StoreUint32(&sc.closeRef, sc.lastID)
-	}
-
-	atomic.StoreInt32((*int32)(&sc.state), int32(connStateClosed))
 
 	if sc.debug {
 		sc.logger.Printf(
